@@ -2143,7 +2143,7 @@ def compare_model(corpus, line, impl_text, model_text):
 
 # what the model runner understands beyond `dec` / `merge` on corpus messages (the pb builder flips
 # these when the runner learns more); decq / mergeq are sent to the model as dec / merge
-MODEL_SUPPORTS = dict(wrappers=False, declen=False, lendelim=False)
+MODEL_SUPPORTS = dict(wrappers=False, declen=True, lendelim=True)
 MODEL_EDV_ARGS = ["--edv"]        # extra runner arguments for the pb-encode-default-value build
 
 
